@@ -79,7 +79,7 @@ def run(ctx):
     quick = ctx.tier == "quick"
     rng = ctx.rng("gen")
     cases = []
-    for i in range(16 if quick else 300):
+    for i in range(16 if quick else 80):
         while True:
             spec = c03.gen_spec(rng, nmax=rng.choice([3, 4, 5]))
             n = sum(len(r.jobs) for r in ref_wf.evaluate(spec).values())
